@@ -25,6 +25,7 @@ EXPLANATION = (
     "class of every flavour; get_current_registers traverses every operand kind that can hold a Register (derived from operand.py "
     "annotations) and the scratch-register choice is control-dependent on exclusion from both the program's registers and the "
     "temporaries of the same command; the final pass maps each command to exactly one instruction through the flavour's mnemonic table."
+    ' Operand-producing functions must return fresh objects (no memoisation, no module-level table), because _replace_constants rewrites operands in place. C03.Z: no truthiness test on an int-typed value in the assembler (a label at instruction 0 is a value).'
 )
 LEVEL_TEXT = (
     "Static analysis, partial: decides the structural clauses the assembler's correctness rests on for every instruction class and "
